@@ -117,11 +117,12 @@ func (b *Buffer) finalize()
   ensures [C13] kept(b.buf)
 
 func (b *Buffer) Write(p []byte) (n int, err error)
-  requires b.mode == SafeRaw ==> frag(p, len(p)) && clean(b.buf, len(b.buf)) && ref(p) != ref(b.buf)
+  requires b.mode == SafeRaw ==> frag(p, len(p)) && clean(b.buf, len(b.buf)) && (ref(p) != ref(b.buf) || len(p) == 0)
   ghost gl = len(b.buf) before "m, ok := b.tryGrowByReslice(len(p))"
   ghost ga = b.buf before "m, ok := b.tryGrowByReslice(len(p))"
   lemma [C01,C03] ConcatWF(ga, b.buf, p, gl, len(p)) when b.mode == SafeRaw at exit
   ensures n == len(p)
+  ensures ref(b.buf) == old(ref(b.buf)) || fresh(b.buf)
   ensures b.mode == old(b.mode)
   ensures [C13] kept(b.buf)
 
@@ -182,6 +183,7 @@ func (b *Buffer) Cap() (n int)
 
 func (b *Buffer) TakeRedactableBytes() (r m.RedactableBytes)
   ensures b.buf == nil && b.validUntil == 0 && b.mode == UnsafeEscaped && !b.markerOpen
+  ensures ref(r) == 0 || ref(r) == old(ref(b.buf)) || fresh(r)
   ensures [C01] WF(r, len(r), false)
   ensures [C01] old(b.mode) != SafeRaw ==> clean(r, len(r))
   ensures [C03] LS(r, len(r))
